@@ -46,6 +46,15 @@ def fragments(ctx):
     out.append(("frag-twins", tw + [C.TER]))
     e = C.chain_lines("3SGB", "I", 0, 8)
     out.append(("frag-3SGB-I0+8", e + [C.TER]))
+    for src, lines, a1, a2 in C.adjacent_same_type(pad=1)[1:3]:
+        out.append((f"same-type-twins-{src}-{a1[1]}", C.make_twins(lines, a1, a2) + [C.TER]))
+    # two copies of the same ligand in one chain (hetero group labels carry no residue number)
+    dfr = C.atom_lines("4DFR")
+    mtx_a = [ln for ln in dfr if ln.startswith("HETATM") and ln[17:20] == "MTX" and ln[21] == "A" and ln[16] in " A"]
+    mtx_b = [ln for ln in dfr if ln.startswith("HETATM") and ln[17:20] == "MTX" and ln[21] == "B" and ln[16] in " A"]
+    if mtx_a and mtx_b:
+        near = C.chain_lines("4DFR", "A", 20, 12)
+        out.append(("two-ligand-copies", near + [C.TER] + mtx_a + C.rename_chain(mtx_b, "B", "A")))
     if ctx.thorough():
         out.append(("frag-2chains", C.chain_lines("1HPX", "A", 24, 4) + [C.TER] + C.chain_lines("1HPX", "B", 24, 4) + [C.TER]))
     return out
